@@ -315,7 +315,7 @@ def forward(spec):
         b = T.encode(x, v)
     except Exception as e:
         return [(_bucket("encode", e), "%s under KMIP %d.%d: %r" % (name, v[0], v[1], e))], None
-    pure = _purity(spec, name, v, b)
+    pure = _purity(spec, name, v, b) + _stale(spec, name, v)
     try:
         y = T.decode(name, b, v, hint=spec)
     except T.CodecTrailingBytes as e:
@@ -399,6 +399,61 @@ def _purity(spec, name, v, b):
                             "%s: bytes under KMIP %d.%d differ once the same object was encoded under %d.%d before"
                             % (name, v[0], v[1], w[0], w[1])))
     return out
+
+
+def _stale(spec, name, v):
+    """A value that has been encoded once and then has a field of a NESTED object changed (through
+    that object's own setter) encodes like a value built with the new field from the start: what
+    an encoder remembers of the last time does not outlive a change.  One nested text / integer
+    field per case; skipped where the nested object is not reachable by attribute or the setter
+    refuses the new value.  -> buckets"""
+    import copy as _copy
+    row = T.ROWS[name]
+    fields = spec.get("fields", {})
+    for f1 in row.fields:
+        sub = fields.get(f1.name)
+        if not (isinstance(sub, dict) and sub.get("cls") in T.ROWS) or f1.post or f1.meta:
+            continue
+        for f2 in T.ROWS[sub["cls"]].fields:
+            val = sub.get("fields", {}).get(f2.name)
+            if f2.post or f2.meta or val is None:
+                continue
+            if isinstance(f2.kind, T.Text) and isinstance(val, str):
+                new = val + "x"
+            elif isinstance(f2.kind, T.Int) and isinstance(val, int) and not isinstance(val, bool) \
+                    and 0 <= val < 2 ** 30:
+                new = val + 1
+            else:
+                continue
+            try:
+                x = T.build(spec)
+                T.encode(x, v)
+                inner = getattr(x, f1.name)
+                if inner is None or inner is not getattr(x, f1.name):
+                    continue
+                # only through a setter the class itself offers (a plain attribute of a primitive
+                # is not an interface: its length is fixed when it is constructed)
+                prop = getattr(type(inner), f2.name, None)
+                if not isinstance(prop, property) or prop.fset is None:
+                    continue
+                libval = T._build_value(f2.kind, new, v, sub["fields"])
+                setattr(inner, f2.name, libval)
+                if getattr(inner, f2.name) != libval:
+                    continue
+                got = T.encode(x, v)
+                spec2 = _copy.deepcopy(spec)
+                spec2["fields"][f1.name]["fields"][f2.name] = new
+                want = T.encode(T.build(spec2), v)
+            except Exception:
+                continue
+            if got != want:
+                return [("%s|stale-encoding-after-a-nested-field-changed|%s.%s.%s" % (PID, name, f1.name, f2.name),
+                         "%s under KMIP %d.%d: encoded, then %s.%s set to %r, encoded again: %d bytes, a value "
+                         "built with that field from the start gives %d bytes%s"
+                         % (name, v[0], v[1], f1.name, f2.name, new, len(got), len(want),
+                            " (the same as before the change)" if got != want and len(got) != len(want) else ""))]
+            return []
+    return []
 
 
 # ---------------------------------------------------------------------- mutations (backward)
